@@ -312,10 +312,11 @@ func (w *World) classNameTerm(t *Term) (bool, string) {
 		return true, "class name = nameMap[typ.Name()] or typ.Name() on a miss"
 	}
 	if ex, ok := t.V.(*ssa.Extract); ok && ex.Index == 0 {
+		// (the key may be a parameter of an accessor `registeredName(typName) (string, bool)`:
+		// resolved to what every static caller passes, fieldvia.go termContainsVia)
 		if lk, ok := ex.Tuple.(*ssa.Lookup); ok {
 			if o, _, okf := w.fieldOfLoad(lk.X); okf && o == "Encoder" {
-				f := w.flow(lk.Parent())
-				if strings.Contains(f.term(lk.Index).Key(), "(reflect.Type).Name") {
+				if w.termContainsVia(lk.Index, "(reflect.Type).Name", 0) {
 					return true, "class name = nameMap[typ.Name()] or typ.Name() on a miss"
 				}
 			}
@@ -323,8 +324,7 @@ func (w *World) classNameTerm(t *Term) (bool, string) {
 	}
 	if lk, ok := t.V.(*ssa.Lookup); ok && !lk.CommaOk {
 		if o, _, okf := w.fieldOfLoad(lk.X); okf && o == "Encoder" {
-			f := w.flow(lk.Parent())
-			if strings.Contains(f.term(lk.Index).Key(), "(reflect.Type).Name") {
+			if w.termContainsVia(lk.Index, "(reflect.Type).Name", 0) {
 				return true, "class name = nameMap[typ.Name()] or typ.Name() on a miss"
 			}
 		}
@@ -389,6 +389,14 @@ func (w *World) foundIndex(idx *Term) (bool, string) {
 				case *ssa.UnOp, *ssa.FieldAddr, *ssa.Field:
 					if reach(x.(ssa.Value), d+1) {
 						return true
+					}
+				case *ssa.Store:
+					// the entry copied into a local variable (`for i, def := range table` keeps
+					// the element in the loop variable): what is read back from the variable
+					if al, isLocal := x.Addr.(*ssa.Alloc); isLocal && x.Val == v {
+						if reach(al, d+1) {
+							return true
+						}
 					}
 				}
 			}
